@@ -196,6 +196,16 @@ def run(spec, ctx):
                                     'layer %s: %r with --layer %r, %r without'
                                     % (l, order, spec['layer_subset'], os_.get(l))))
                 break
+    # a later run of the same process that selects fewer tests: exactly those run, each in the
+    # order the seed gives it
+    topt = dict(ropt, t=['TC0'])
+    tsub, Tt = ex(topt, 'test-filter')
+    if not (tsub.raised or tsub.hang):
+        want_t = {l: sorted(d['tid'] for d in ds) for l, ds in m.select(topt).items()}
+        got_t = {l: sorted(o) for l, o in flat(orders(m, Tt)).items()}
+        if got_t != want_t:
+            viols.append(C.viol('C11/shuffled-run-executes-other-tests',
+                                'with -t TC0: ran %r, selected %r' % (got_t, want_t)))
     shuffled_big = sum(1 for l in ob if len(ob[l]) >= 2)
     return _ws.std_out(spec, ctx, results, viols,
                        {'layers_with_2+_tests': shuffled_big, seedmode: 1,
